@@ -53,6 +53,36 @@ def insPos (l : List Ctr) (n : Nat) : Nat → Option Nat
   | 0 => none
   | i+1 => if i + 1 < l.length ∧ (l.getD i default).seqNr < n then some (i+1) else insPos l n i
 
+/-- `seqCounters.add`, branch `seqNr > max`: drop the outdated counters (or make room), append -/
+def Ctrs.addAbove (c : Ctrs) (n : Nat) : Option Ctrs :=
+  let mn' := c.minFromMax n
+  let cb := countBelow c.live mn'
+  let drop := if cb = 0 ∧ c.nr = c.w then 1 else cb     -- (`fix:` commit: only make room when nothing is outdated)
+  -- copy(s.counters, s.counters[nrToDrop:]) needs nrToDrop ≤ len; _nrCounters -= nrToDrop must not wrap
+  if drop > c.arr.length ∨ drop > c.nr then none else
+  let arr1 := if drop > 0 then copyWithin c.arr 0 drop c.arr.length else c.arr
+  let nr1 := c.nr - drop
+  if nr1 < arr1.length then some { c with arr := arr1.set nr1 ⟨n, 1⟩, nr := nr1 + 1 } else none
+
+/-- `seqCounters.add`, branch `min ≤ seqNr ≤ max`: increment, or insert in order -/
+def Ctrs.addInside (c : Ctrs) (n : Nat) : Option Ctrs :=
+  match findIdx c.live n with
+  | some i => some { c with arr := c.arr.set i ⟨n, (c.arr.getD i default).count + 1⟩ }
+  | none =>
+    match insPos c.live n (c.nr - 1) with
+    | none => some c      -- below every live counter: not inserted
+    | some i =>
+      if c.nr < c.w then
+        -- copy(counters[i+1:nr+1], counters[i:nr]); counters[i] = new; nr++
+        if c.nr + 1 ≤ c.arr.length then
+          some { c with arr := (copyWithin c.arr (i+1) i c.nr).set i ⟨n, 1⟩, nr := c.nr + 1 }
+        else none
+      else
+        -- copy(counters[:i-1], counters[1:i]); counters[i-1] = new
+        if i ≤ c.arr.length then
+          some { c with arr := (copyWithin c.arr 0 1 i).set (i-1) ⟨n, 1⟩ }
+        else none
+
 /-- `seqCounters.add` (with the `fix:` commit for the in-window insert); `none` = index panic -/
 def Ctrs.add (c : Ctrs) (n : Nat) : Option Ctrs :=
   if c.nr = 0 then
@@ -62,32 +92,8 @@ def Ctrs.add (c : Ctrs) (n : Nat) : Option Ctrs :=
     let mx := (c.arr.getD (c.nr - 1) default).seqNr
     let mn := c.minFromMax mx
     if n < mn then some c
-    else if n > mx then
-      let mn' := c.minFromMax n
-      let cb := countBelow c.live mn'
-      let drop := if cb = 0 ∧ c.nr = c.w then 1 else cb     -- (`fix:` commit: only make room when nothing is outdated)
-      -- copy(s.counters, s.counters[nrToDrop:]) needs nrToDrop ≤ len; _nrCounters -= nrToDrop must not wrap
-      if drop > c.arr.length ∨ drop > c.nr then none else
-      let arr1 := if drop > 0 then copyWithin c.arr 0 drop c.arr.length else c.arr
-      let nr1 := c.nr - drop
-      if nr1 < arr1.length then some { c with arr := arr1.set nr1 ⟨n, 1⟩, nr := nr1 + 1 } else none
-    else
-      match findIdx c.live n with
-      | some i => some { c with arr := c.arr.set i ⟨n, (c.arr.getD i default).count + 1⟩ }
-      | none =>
-        match insPos c.live n (c.nr - 1) with
-        | none => some c      -- below every live counter: not inserted
-        | some i =>
-          if c.nr < c.w then
-            -- copy(counters[i+1:nr+1], counters[i:nr]); counters[i] = new; nr++
-            if c.nr + 1 ≤ c.arr.length then
-              some { c with arr := (copyWithin c.arr (i+1) i c.nr).set i ⟨n, 1⟩, nr := c.nr + 1 }
-            else none
-          else
-            -- copy(counters[:i-1], counters[1:i]); counters[i-1] = new
-            if i ≤ c.arr.length then
-              some { c with arr := (copyWithin c.arr 0 1 i).set (i-1) ⟨n, 1⟩ }
-            else none
+    else if n > mx then c.addAbove n
+    else c.addInside n
 
 /-- `seqCounters.resize` (with the `fix:` commit for shrinking) -/
 def Ctrs.resize (c : Ctrs) (w' : Nat) : Option Ctrs :=
